@@ -13,9 +13,9 @@ import os
 from vlib import MachineryError
 
 TOK_QUICK = [("T1", 4, False), ("T1", 3, True), ("T2", 4, False), ("T3", 4, False), ("T4", 4, False), ("T5", 3, False), ("T6", 4, False),
-             ("T7", 7, False), ("T8", 4, False), ("T9", 3, True), ("T10", 4, False)]
+             ("T7", 7, False), ("T8", 4, False), ("T9", 3, True), ("T10", 4, False), ("T11", 6, False)]
 TOK_THOROUGH = [("T1", 4, False), ("T1", 4, True), ("T2", 5, False), ("T3", 5, False), ("T4", 5, False), ("T5", 4, False), ("T6", 6, False),
-                ("T7", 9, False), ("T8", 5, False), ("T9", 3, True), ("T9", 3, False), ("T10", 5, False)]
+                ("T7", 9, False), ("T8", 5, False), ("T9", 3, True), ("T9", 3, False), ("T10", 5, False), ("T11", 7, False)]
 PARSE_QUICK = [("stylesheet", "full", 4), ("rules", "full", 4), ("decls", "full", 4), ("onedecl", "full", 4), ("blocks", "full", 4),
                ("decls", "imp", 5), ("onedecl", "imp", 5), ("blocks", "imp", 5)]
 PARSE_THOROUGH = [("stylesheet", "full", 5), ("rules", "full", 5), ("decls", "full", 5), ("onedecl", "full", 5), ("blocks", "full", 5),
@@ -100,7 +100,7 @@ def run(ctx):
         "distinct_nontrivial": ctx.extra["nontrivial"],
         "rule": "tokenizer: every string of length <= n over the family alphabet (T1 general 22 symbols, T2 nesting, T3 url(), "
                 "T4 CDO/CDC/match/unicode-range, T5 preprocessing + non-ASCII, T6 numbers, T7 long hex escapes, T8 control characters via "
-                "escapes, T9 comment-separated characters, T10 exponent-like units); parser: every sequence of <= n abstract "
+                "escapes, T9 comment-separated characters, T10 exponent-like units, T11 hex escapes at the limits of the code space and of the surrogates); parser: every sequence of <= n abstract "
                 "tokens (13 classes) per entry point plus the !important family. Non-trivial = more than one token event / "
                 "at least two tokens, counted by the harness. All cases are distinct (one TLC initial state each).",
     }, assumptions=[
